@@ -414,11 +414,24 @@ func init() {
 					c.Expired()
 				}
 			}
-			os.WriteFile(filepath.Join(core.Root, ".build", "C11-race-stderr.txt"), []byte(stderrAll), 0o644)
+			os.WriteFile(filepath.Join(core.BuildDir(), "C11-race-stderr.txt"), []byte(stderrAll), 0o644)
 			if n := core.SaveRaceReports("C11", stderrAll); n > 0 {
 				c.Note("%d race detector report(s) saved to %s", n, filepath.Join(core.Root, "replays", "C11-race-reports.txt"))
 			}
 			c.Set("race_monitor_executions", raceExecs)
+			if !c.Quick() {
+				// supplement, not the deciding step: free-running on the real sync.Pool under -race
+				res, se, err := core.RunWorker("mc-plain-race", "C11FREE", "--worker", "freerun", "GORACE=halt_on_error=0")
+				if err != nil {
+					c.InternalError("free-running supplement: %v", err)
+				} else {
+					for _, v := range res.Violations {
+						c.Fail(v.Case, v.Failure)
+					}
+					core.SaveRaceReports("C11-freerun", se)
+					c.Set("supplement_free_running_real_sync_pool", map[string]any{"runs": res.Executions, "goroutines": 64, "cycles_each": 200, "gomaxprocs": []int{1, 4, 16}, "violations": len(res.Violations), "note": "sampling-style supplement, not the deciding step; failures of this pass are not replayable schedules"})
+				}
+			}
 			c.Set("states", states)
 			c.Set("transitions", trans)
 			c.Set("traces_validated_against_impl", execs)
